@@ -6,6 +6,7 @@ import (
 
 	"github.com/samber/lo"
 	corev1 "k8s.io/api/core/v1"
+	"k8s.io/apimachinery/pkg/api/resource"
 	metav1 "k8s.io/apimachinery/pkg/apis/meta/v1"
 
 	v1 "sigs.k8s.io/karpenter/pkg/apis/v1"
@@ -171,7 +172,10 @@ func genCatalog(r *kit.Rand, n int) []*cloudprovider.InstanceType {
 	for i := range its {
 		fam := kit.Pick(r, families)
 		name := fmt.Sprintf("%s%d", fam, i)
-		it := &cloudprovider.InstanceType{Name: name, Capacity: corev1.ResourceList{}}
+		// complete enough for Allocatable() / AllocatableOfferingsList() / fits(): capacity and overhead as fake.NewInstanceType sets them
+		it := &cloudprovider.InstanceType{Name: name,
+			Capacity: corev1.ResourceList{corev1.ResourceCPU: resource.MustParse("4"), corev1.ResourceMemory: resource.MustParse("4Gi"), corev1.ResourcePods: resource.MustParse("5")},
+			Overhead: &cloudprovider.InstanceTypeOverhead{KubeReserved: corev1.ResourceList{corev1.ResourceCPU: resource.MustParse("100m"), corev1.ResourceMemory: resource.MustParse("10Mi")}}}
 		nOff := r.Range(1, 4)
 		if r.Chance(1, 10) {
 			nOff = 0
@@ -343,10 +347,49 @@ func runPrice(c *kit.Ctx, r *kit.Rand, its cloudprovider.InstanceTypes, rq sched
 		pCase{kind, jRq, jIn, n, bestEffort, full, names(res), err == nil, minNeeded, unsat, smvErr != nil}, key)
 }
 
+// firstUse touches the instance types the way a scheduling pass does (fits() -> AllocatableOfferingsList(), which
+// precomputes per-type data exactly once), so that later calls run on already-used objects.
+func firstUse(its []*cloudprovider.InstanceType) {
+	for _, it := range its {
+		_ = it.Allocatable()
+		_ = it.AllocatableOfferingsList()
+	}
+}
+
+// flipAvailability changes Offering.Available IN PLACE on the same objects (what a provider's ICE cache or an
+// exhausted reservation does between two passes): for about half of the types the cheapest available offering
+// (compatible with rq when rq is given) becomes unavailable, and for some an unavailable offering comes back.
+func flipAvailability(r *kit.Rand, its []*cloudprovider.InstanceType, rq scheduling.Requirements) (flips int) {
+	for _, it := range its {
+		if r.Bool() {
+			var best *cloudprovider.Offering
+			for _, o := range it.Offerings {
+				if o.Available && (rq == nil || rq.IsCompatible(o.Requirements, scheduling.AllowUndefinedWellKnownLabels)) && (best == nil || o.Price < best.Price) {
+					best = o
+				}
+			}
+			if best != nil {
+				best.Available = false
+				flips++
+			}
+		}
+		if r.Chance(1, 3) {
+			for _, o := range it.Offerings {
+				if !o.Available {
+					o.Available = true
+					flips++
+					break
+				}
+			}
+		}
+	}
+	return flips
+}
+
 func partPrice(c *kit.Ctx) {
-	nRand := 500
+	nRand := 350
 	if c.Thorough() {
-		nRand = 3500
+		nRand = 2400
 	}
 	for i := 0; i < nRand; i++ {
 		r := c.Rand.Fork()
@@ -356,7 +399,21 @@ func partPrice(c *kit.Ctx) {
 		}
 		its := genCatalog(r, n)
 		rq := genClaimReqs(r, its)
+		if r.Bool() {
+			firstUse(its)
+		}
 		runPrice(c, r, its, rq, pickN(r, len(its)), r.Chance(1, 4), "truncate")
+		// second pass on the SAME objects after availability changed: ranking must follow the current availability
+		if len(its) >= 2 && r.Chance(2, 3) {
+			firstUse(its)
+			if flipAvailability(r, its, rq) > 0 {
+				n := pickN(r, len(its))
+				if r.Chance(2, 3) {
+					n = r.Range(1, len(its)-1)
+				}
+				runPrice(c, r, its, rq, n, r.Chance(1, 4), "truncate-after-availability-change")
+			}
+		}
 	}
 }
 
@@ -400,40 +457,48 @@ func emitToNodeClaim(c *kit.Ctx, kind string, gRq string, jRq []jReq, gIn string
 }
 
 func partToNodeClaim(c *kit.Ctx) {
-	nRand := 200
+	nRand := 140
 	if c.Thorough() {
-		nRand = 1200
+		nRand = 800
 	}
 	defer func(old int) { sched.MaxInstanceTypes = old }(sched.MaxInstanceTypes)
 	for i := 0; i < nRand; i++ {
 		r := c.Rand.Fork()
 		its := genCatalog(r, r.Range(1, 8))
-		np := test.NodePool(v1.NodePool{ObjectMeta: metav1.ObjectMeta{Name: "pool"}})
-		if r.Chance(1, 3) {
-			mv := r.Range(1, 3)
-			np.Spec.Template.Spec.Requirements = append(np.Spec.Template.Spec.Requirements, v1.NodeSelectorRequirementWithMinValues{
-				Key: corev1.LabelInstanceTypeStable, Operator: corev1.NodeSelectorOpExists, MinValues: &mv})
-		}
-		nct := sched.NewNodeClaimTemplate(np)
-		nct.InstanceTypeOptions = its
-		nct.Requirements.Add(genClaimReqs(r, its).Values()...)
-		switch r.Intn(8) {
-		case 0: // an instance-type requirement that names only some of the options (the emitted set is the intersection)
-			sub := lo.Filter(names(its), func(string, int) bool { return r.Bool() })
-			if len(sub) > 0 {
-				nct.Requirements.Add(scheduling.NewRequirement(corev1.LabelInstanceTypeStable, corev1.NodeSelectorOpIn, sub...))
+		for pass, kind := range []string{"unit", "unit-after-availability-change"} {
+			if pass == 1 {
+				firstUse(its)
+				if len(its) < 2 || !r.Chance(2, 3) || flipAvailability(r, its, nil) == 0 {
+					break
+				}
 			}
-		case 1:
-			nct.Requirements.Add(scheduling.NewRequirement(corev1.LabelInstanceTypeStable, corev1.NodeSelectorOpNotIn, its[0].Name))
+			np := test.NodePool(v1.NodePool{ObjectMeta: metav1.ObjectMeta{Name: "pool"}})
+			if r.Chance(1, 3) {
+				mv := r.Range(1, 3)
+				np.Spec.Template.Spec.Requirements = append(np.Spec.Template.Spec.Requirements, v1.NodeSelectorRequirementWithMinValues{
+					Key: corev1.LabelInstanceTypeStable, Operator: corev1.NodeSelectorOpExists, MinValues: &mv})
+			}
+			nct := sched.NewNodeClaimTemplate(np)
+			nct.InstanceTypeOptions = its
+			nct.Requirements.Add(genClaimReqs(r, its).Values()...)
+			switch r.Intn(8) {
+			case 0: // an instance-type requirement that names only some of the options (the emitted set is the intersection)
+				sub := lo.Filter(names(its), func(string, int) bool { return r.Bool() })
+				if len(sub) > 0 {
+					nct.Requirements.Add(scheduling.NewRequirement(corev1.LabelInstanceTypeStable, corev1.NodeSelectorOpIn, sub...))
+				}
+			case 1:
+				nct.Requirements.Add(scheduling.NewRequirement(corev1.LabelInstanceTypeStable, corev1.NodeSelectorOpNotIn, its[0].Name))
+			}
+			n := pickN(r, len(its))
+			if n < 0 {
+				n = 0
+			}
+			sched.MaxInstanceTypes = n
+			keep := minKeys(nct.Requirements)
+			gRq, jRq, gIn, jIn := gReqs(nct.Requirements, nil), jReqs(nct.Requirements, nil), gITs(its, keep), jITs(its, keep)
+			nc := nct.ToNodeClaim()
+			emitToNodeClaim(c, kind, gRq, jRq, gIn, jIn, len(its), n, names(its), nc)
 		}
-		n := pickN(r, len(its))
-		if n < 0 {
-			n = 0
-		}
-		sched.MaxInstanceTypes = n
-		keep := minKeys(nct.Requirements)
-		gRq, jRq, gIn, jIn := gReqs(nct.Requirements, nil), jReqs(nct.Requirements, nil), gITs(its, keep), jITs(its, keep)
-		nc := nct.ToNodeClaim()
-		emitToNodeClaim(c, "unit", gRq, jRq, gIn, jIn, len(its), n, names(its), nc)
 	}
 }
